@@ -535,6 +535,12 @@ type TB interface {
 // Judge records a verdict and fails the rapid case on an (unknown) violation or crash. Returns true when ok.
 func (s *Stats) Judge(t TB, scn interface{}, v Verdict) {
 	b, _ := json.Marshal(scn)
+	if d := os.Getenv("VX_DUMP"); d != "" { // development aid: every judged scenario and its verdict, one per line
+		if f, err := os.OpenFile(d, os.O_APPEND|os.O_CREATE|os.O_WRONLY, 0o644); err == nil {
+			fmt.Fprintf(f, "%s\t%s\t%s\n", v.Status, v.Sig, b)
+			f.Close()
+		}
+	}
 	s.mu.Lock()
 	if s.failing {
 		s.ShrinkRuns++
